@@ -215,3 +215,70 @@ func H_C03_materialized_rows_are_parsed_from_a_copy() {
 	}
 	vpAssert((row != nil) == (err == nil), "C03: materializeRow returned neither a row nor an error")
 }
+
+// The filter cursor's chunk buffers: taken from the pool per chunk, given back at most once each
+// on every path — a failed read of a later chunk included — by readChunkFrom and release together.
+//
+//vp:override bs.getScanBuffer=vpGetTracked
+//vp:override bs.putScanBuffer=vpPutTracked
+//vp:override bs.parseFilterSection=vpParseSectionStub
+//vp:bounds 2 blocks whose filter sections lie in one chunk or (more than 4 MiB apart) in two chunks; the file is long enough for both, or ends before the second (the read of the later chunk fails); each section parses or is malformed; then the cursor is released, once
+func H_C03_filter_chunk_buffers_are_given_back_at_most_once() {
+	vpBufs = nil
+	far := nondetBool()
+	off2 := 8
+	if far {
+		off2 = blockFilterChunkTarget + 64
+	}
+	blocks := []DataBlockMetadata{
+		{RowDataOffset: 0, BloomFilterOffset: 0, BloomFilterSize: 4},
+		{RowDataOffset: 1, BloomFilterOffset: off2, BloomFilterSize: 4},
+	}
+	fileLen := off2 + 4
+	if nondetBool() {
+		fileLen = 6 // the file ends before the second section: reading it fails
+	}
+	f := &vpSparseFile{size: int64(fileLen)}
+	c := blockFilterCursor{file: f, blocks: blocks, regionStart: 0, regionEnd: int64(off2 + 4)}
+	for i := range blocks {
+		_, _, readFailed, _ := c.filtersFor(i)
+		if readFailed {
+			break
+		}
+	}
+	c.release()
+	for _, t := range vpBufs {
+		vpAssert(t.puts <= 1, "C03: a filter chunk buffer was returned to the pool twice")
+		vpAssert(t.puts == 1, "C03: a filter chunk buffer was never returned to the pool")
+	}
+}
+
+// vpSparseFile: a file of a given size whose content is all zero (only extents matter here).
+type vpSparseFile struct {
+	size int64
+	pos  int64
+}
+
+func (f *vpSparseFile) Seek(off int64, whence int) (int64, error) {
+	switch whence {
+	case io.SeekStart:
+		f.pos = off
+	case io.SeekEnd:
+		f.pos = f.size + off
+	default:
+		f.pos += off
+	}
+	return f.pos, nil
+}
+func (f *vpSparseFile) Read(p []byte) (int, error) {
+	if f.pos >= f.size {
+		return 0, io.EOF
+	}
+	n := int64(len(p))
+	if rem := f.size - f.pos; rem < n {
+		n = rem
+	}
+	f.pos += n
+	return int(n), nil
+}
+func (f *vpSparseFile) Close() error { return nil }
